@@ -34,8 +34,10 @@ func QUICConfig(server bool, idle time.Duration) *quic.Config {
 	c.InitialStreamReceiveWindow = 4 << 20
 	c.MaxStreamReceiveWindow = 4 << 20
 	if idle > 0 {
+		// keep-alives stay on (as in production) so that a live but silent peer
+		// keeps the connection: a stall stays a stall, only real loss times out
 		c.MaxIdleTimeout = idle
-		c.KeepAlivePeriod = 0
+		c.KeepAlivePeriod = idle / 3
 	}
 	return c
 }
@@ -75,6 +77,7 @@ type Pair struct {
 	Dial      transfer.Conn // sender side in the app
 	Accept    transfer.Conn // receiver side in the app
 	RawDial   *quic.Conn
+	RawAccept *quic.Conn
 	dialUDP   *net.UDPConn
 	closeOnce sync.Once
 }
@@ -91,12 +94,20 @@ func (l *Listener) NewPair(ctx context.Context) (*Pair, error) {
 	defer cancel()
 	type acc struct {
 		c   transfer.Conn
+		raw *quic.Conn
 		err error
 	}
 	ach := make(chan acc, 1)
 	go func() {
-		c, err := l.tr.Accept(cctx)
-		ach <- acc{c, err}
+		// accept the raw connection (so that the harness can close it with an
+		// error code) and wrap it in the repository's QUICConn
+		raw, err := l.ql.Accept(cctx)
+		if err != nil {
+			ach <- acc{nil, nil, err}
+			return
+		}
+		c, err := transferquic.NewDialer(raw, Quiet).Dial(cctx, "peer")
+		ach <- acc{c, raw, err}
 	}()
 	raw, err := quictransport.DialWithConfig(cctx, udp, l.Addr(), Quiet, QUICConfig(false, l.idle))
 	if err != nil {
@@ -116,7 +127,7 @@ func (l *Listener) NewPair(ctx context.Context) (*Pair, error) {
 		udp.Close()
 		return nil, fmt.Errorf("accept: %w", a.err)
 	}
-	return &Pair{Dial: dc, Accept: a.c, RawDial: raw, dialUDP: udp}, nil
+	return &Pair{Dial: dc, Accept: a.c, RawDial: raw, RawAccept: a.raw, dialUDP: udp}, nil
 }
 
 // KillDialSocket closes the dialer's UDP socket: the peer sees silence.
